@@ -46,6 +46,13 @@ def enumerate_states(tier):
         for deps in DEPS:
             for asy in (False, True):
                 states.append(dict(key="u_fn_%s_%s_%s" % (word or "0", deps, "a" if asy else "s"), mode="fn", word=word, deps=deps, asy=asy))
+                # the same wiring must come out when the options are spelled differently
+                if len(w) <= 1:
+                    for var in VARIANTS:
+                        if var == "mockall" and (asy or deps == "gen"):
+                            continue   # (mockall's own derive: sync, non-generic traits only)
+                        states.append(dict(key="u_fn_%s_%s_%s_%s" % (word or "0", deps, "a" if asy else "s", var), mode="fn", word=word, deps=deps,
+                                           asy=asy, variant=var))
         if word == "ii":
             for deps in ("impl", "nodeps"):
                 for asy in (False, True):
@@ -59,6 +66,13 @@ def enumerate_states(tier):
     return states, len(states), dict(arg_kinds=list(KINDS), word_len=maxlen, deps=DEPS)
 
 
+VARIANTS = {
+    # name -> (macro name, extra options)
+    "export_explicit": ("entrait_export", ", export"),
+    "export_false": ("entrait_export", ", export = false"),
+    "export_opt": ("entrait", ", export = true, unimock = true"),
+    "mockall": ("entrait", ", mockall"),
+}
 NAMES3 = ["fm", "fa", "fz"]      # declared in a non-alphabetical order on purpose
 
 
@@ -89,7 +103,8 @@ def render(s):
         return "%s%sfn %s%s(%s) -> String { %s }" % (vis, A, NAMES3[j], head, ps, body)
 
     if s["mode"] == "fn":
-        L.append("    #[::entrait::entrait(pub Tr, mock_api = TrMock%s)]" % (", no_deps" if deps == "nodeps" else ""))
+        mac, extra = VARIANTS.get(s.get("variant"), ("entrait", ""))
+        L.append("    #[::entrait::%s(pub Tr, mock_api = TrMock%s%s)]" % (mac, ", no_deps" if deps == "nodeps" else "", extra))
         L.append("    " + fn_src(0))
         api = lambda j: "TrMock"
     elif s["mode"] == "mac":
@@ -103,7 +118,8 @@ def render(s):
         L.append("    #[::entrait::entrait(pub Tr, mock_api = TrMock%s)]" % (", no_deps" if deps == "nodeps" else ""))
         L.append("    pub mod m { use super::*;")
         for j in range(3):
-            L.append("        " + fn_src(j))
+            # (an enabled `#[cfg]` on one of the functions must not change its wiring)
+            L.append("        " + ("#[cfg(all())] " if j == 1 else "") + fn_src(j))
         L.append("    }")
         api = lambda j: "m::TrMock::%s" % NAMES3[j]      # (for modules the mock API is generated inside the module, next to the trait)
     else:
@@ -222,7 +238,8 @@ def evaluate(states, report, tier):
             if sig in done:
                 continue
             done.add(sig)
-            tags = {"mode:" + s["mode"], "deps:" + s["deps"], "async" if s["asy"] else "sync", "arity:%d" % len(s["word"])} | {"arg:" + k for k in s["word"]}
+            tags = {"mode:" + s["mode"], "deps:" + s["deps"], "async" if s["asy"] else "sync", "arity:%d" % len(s["word"]),
+                    "variant:" + s.get("variant", "plain")} | {"arg:" + k for k in s["word"]}
             report.violation(s["key"], tags, sig, detail, state=s, source=engine.standalone_source(u), meta=dict(mode="run", feature=True, cfg_test=True))
 
 
